@@ -180,6 +180,10 @@ func (v SubscriberView) AttesterDuties(ctx context.Context, opts *api.AttesterDu
 func (n *Node) attesterDuties(ctx context.Context, opts *api.AttesterDutiesOpts, kind string) (*api.Response[[]*apiv1.AttesterDuty], error) {
 	f := &DutyFetch{Kind: kind, Epoch: uint64(opts.Epoch), Indices: toInts(opts.Indices), Inc: simrt.CurrentInc(), Step: simrt.Step(), T: simrt.Now(), Att: map[int]*apiv1.AttesterDuty{}}
 	n.H.addFetch(f)
+	var early *AttTable
+	if n.M.P.AnswerAtRequest {
+		early = n.M.AttesterTable(uint64(opts.Epoch))
+	}
 	_, err := n.S.Do(ctx, n.NodeName, "AttesterDuties", nil)
 	f.EndStep, f.EndT = simrt.Step(), simrt.Now()
 	f.CurSlotAtEnd, f.PreGenesis = n.curSlot()
@@ -188,6 +192,9 @@ func (n *Node) attesterDuties(ctx context.Context, opts *api.AttesterDutiesOpts,
 		return nil, err
 	}
 	tab := n.M.AttesterTable(uint64(opts.Epoch))
+	if early != nil {
+		tab = early // the node computed the answer when the request arrived; the latency is the way back
+	}
 	odd := ""
 	if kind == "attester" {
 		odd = n.odd("AttesterDuties")
@@ -253,6 +260,10 @@ func (n *Node) attesterDuties(ctx context.Context, opts *api.AttesterDutiesOpts,
 func (n *Node) ProposerDuties(ctx context.Context, opts *api.ProposerDutiesOpts) (*api.Response[[]*apiv1.ProposerDuty], error) {
 	f := &DutyFetch{Kind: "proposer", Epoch: uint64(opts.Epoch), Indices: toInts(opts.Indices), Inc: simrt.CurrentInc(), Step: simrt.Step(), T: simrt.Now(), Prop: map[uint64]int{}}
 	n.H.addFetch(f)
+	var early map[uint64]int
+	if n.M.P.AnswerAtRequest {
+		early = n.M.ProposerTable(uint64(opts.Epoch))
+	}
 	_, err := n.S.Do(ctx, n.NodeName, "ProposerDuties", nil)
 	f.EndStep, f.EndT = simrt.Step(), simrt.Now()
 	f.CurSlotAtEnd, f.PreGenesis = n.curSlot()
@@ -261,6 +272,9 @@ func (n *Node) ProposerDuties(ctx context.Context, opts *api.ProposerDutiesOpts)
 		return nil, err
 	}
 	tab := n.M.ProposerTable(uint64(opts.Epoch))
+	if early != nil {
+		tab = early
+	}
 	want := map[int]bool{}
 	for _, v := range f.Indices {
 		want[v] = true
